@@ -373,6 +373,29 @@ func (f *Frame) callStatic(callee *ssa.Function, args []string, argVals []ssa.Va
 		}
 		return callOut{r, rs, nst}
 	}
+	if e.P.isExternal(callee) && pureExternal(callee) {
+		// a pure standard-library function over scalars and strings: an uninterpreted function of its arguments
+		// (named "ext:<pkg>.<Func>", so that contracts can refer to it)
+		var as []CVal
+		ps := callee.Signature.Params()
+		for i := 0; i < ps.Len() && i < len(args); i++ {
+			as = append(as, CVal{S: args[i], T: ps.At(i).Type()})
+		}
+		var rs []string
+		for i, rt := range sigResults(callee.Signature) {
+			nm := "ext:" + fnKey(callee)
+			if i > 0 {
+				nm = fmt.Sprintf("%s.%d", nm, i)
+			}
+			r := e.define(f.prefix+"ext", e.sortOf(rt), e.ufApp(nm, as, rt))
+			if fact := e.typeFact(r, rt, st); fact != "true" {
+				e.assume(reach, fact)
+			}
+			rs = append(rs, r)
+		}
+		e.note("assumed: %s is a pure function of its arguments", fnKey(callee))
+		return callOut{reach, rs, st}
+	}
 	if e.P.isExternal(callee) {
 		// shallow havoc
 		e.note("external call %s: result havocked; only the direct referents of its arguments may change", fnKey(callee))
@@ -646,4 +669,38 @@ func (e *Enc) havocTarget(st *State, t modTarget) {
 
 func (e *Enc) typeFactOr(v string, t types.Type, st *State) string {
 	return e.typeFact(v, t, st)
+}
+
+var purePkgs = map[string]bool{"strings": true, "strconv": true, "math": true, "unicode": true, "unicode/utf8": true, "math/bits": true}
+
+// pureExternal: a package-level function of a pure standard-library package whose parameters and results are
+// strings, booleans, numbers (or a trailing error result).
+func pureExternal(fn *ssa.Function) bool {
+	if fn.Pkg == nil || !purePkgs[fn.Pkg.Pkg.Path()] || fn.Signature.Recv() != nil || fn.Signature.Variadic() {
+		return false
+	}
+	basic := func(t types.Type) bool {
+		b, ok := t.Underlying().(*types.Basic)
+		return ok && b.Info()&(types.IsString|types.IsBoolean|types.IsNumeric) != 0 && b.Info()&types.IsComplex == 0
+	}
+	ps := fn.Signature.Params()
+	for i := 0; i < ps.Len(); i++ {
+		if !basic(ps.At(i).Type()) {
+			return false
+		}
+	}
+	rs := fn.Signature.Results()
+	if rs.Len() == 0 {
+		return false
+	}
+	for i := 0; i < rs.Len(); i++ {
+		t := rs.At(i).Type()
+		if i == rs.Len()-1 && types.TypeString(t, nil) == "error" {
+			continue
+		}
+		if !basic(t) {
+			return false
+		}
+	}
+	return true
 }
